@@ -1,0 +1,10 @@
+//go:build verif
+
+package verifhook
+
+import "github.com/open2b/scriggo/internal/runtime"
+
+// Hooks of the vm engine (C14): see internal/runtime/verif_vm.go.
+var SpawnView = runtime.VerifSpawnView
+
+const StackSize = runtime.VerifStackSize
